@@ -181,7 +181,7 @@ def run_step(step, ctx, want_digests=False, count=True, want_tables=False):
 
     with contextlib.ExitStack() as stack:
         tf = None
-        if kind in ("trace", "mem"):
+        if kind in ("trace", "mem", "intr"):
             tf = seams.TraceFault(fault)
         elif count:
             tf = seams.TraceFault(None, gran=step.get("_gran", "call"))
